@@ -179,10 +179,10 @@ func (c *envC) Gen(r *rand.Rand, tier string, emit func(string)) {
 		emit(fmt.Sprintf("load %s %s", encPairs(env), Hex(txt)))
 	}
 	// launch environment: overlaps between the layers, injected keys in every layer
-	keys := []string{"VT_A", "VT_B", "VT_AB", "PC_PROC_NAME", "PC_REPLICA_NUM", "VT_NONE"}
+	keys := []string{"VT_A", "VT_B", "VT_AB", "PC_PROC_NAME", "PC_REPLICA_NUM", "PC_PORT_NUM", "VT_NONE"}
 	layer := func() [][2]string {
 		var ps [][2]string
-		for _, k := range keys[:5] {
+		for _, k := range keys[:6] {
 			if r.Intn(3) == 0 {
 				ps = append(ps, [2]string{k, vals[r.Intn(len(vals))]})
 			}
